@@ -22,6 +22,7 @@ import TdVerif.Lemmas.C04Split
 import TdVerif.Lemmas.C04Views
 import TdVerif.Lemmas.C04Select
 import TdVerif.Lemmas.C04SelectRef
+import TdVerif.Lemmas.C04Keys
 
 namespace TdVerif.Props.C04
 open TdVerif TdVerif.Key TdVerif.C04
@@ -65,6 +66,16 @@ example : Spells (.tup [.str "a", .tup [.tup [.str "b"], .str "c"]]) ["a", "b", 
   .tup _ _ (.cons _ _ ["a"] ["b", "c"] (.str "a") (by simp)
     (.cons _ _ ["b", "c"] [] (.tup _ _ (.cons _ _ ["b"] ["c"] (.tup _ _ (.cons _ _ ["b"] [] (.str "b") (by simp) .nil)) (by simp)
       (.cons _ _ ["c"] [] (.str "c") (by simp) .nil))) (by simp) .nil))
+
+/-- malformed keys: the C++ unraveller answers with the empty tuple EXACTLY for the objects that spell no non-empty path — a
+non-str member anywhere, an empty tuple anywhere (`()`, `("a", ())`, `("a", 1)`, `(("a",), (), "b")` …) — the converse of
+`spelling_canonical`; and `get` / `set` / `del_`, which see only that tuple, refuse the empty one whatever the state. -/
+theorem malformed_key_iff (k : Key) :
+    (unravelTupCpp k = [] ↔ ¬ ∃ p, p ≠ [] ∧ Spells k p) ∧
+    (∀ t v, (∃ e, getTuple [] t = .error e) ∧ (∃ e, setTuple [] v t = .error e) ∧ (∃ e, delTuple [] t = .error e)) := by
+  refine ⟨malformed_iff k, fun t v => ⟨⟨_, rfl⟩, ?_, ?_⟩⟩
+  · cases t <;> exact ⟨_, rfl⟩
+  · cases t <;> exact ⟨_, rfl⟩
 
 /-! ## §2 the reference is a nested mapping -/
 
@@ -163,19 +174,22 @@ theorem clear_refines (kids : Kids) : clearT (.node kids) = specClear (.node kid
 /-- `unflatten_keys(sep)`: the loop of `rename_key_(key, key.split(sep), safe=True)` over the root keys (in place or on
 the shallow copy) equals the replay on the dict, including which keys are refused and what has already been moved
 when a key is refused. -/
-theorem unflatten_refines (sep : Char) (inplace : Bool) (kids : Kids) (hw : WF (.node kids)) :
+theorem unflatten_refines (sep : String) (inplace : Bool) (kids : Kids) (hw : WF (.node kids)) :
     (unflattenT sep inplace (.node kids)).1 = (specUnflatten sep inplace (.node kids)).1 ∧
     (unflattenT sep inplace (.node kids)).2.erase = (specUnflatten sep inplace (.node kids)).2.erase := by
   have h := unflattenLoop_refines sep (rootKeys (.node kids)) kids hw
   simp only [unflattenT, specUnflatten]
-  cases h1 : unflattenLoop sep (rootKeys (.node kids)) (.node kids) with
-  | mk t1 o1 =>
-    cases h2 : specUnflattenLoop sep (rootKeys (.node kids)) (.node kids) with
-    | mk t2 o2 =>
-      rw [h1, h2] at h
-      obtain ⟨hs, ho⟩ := h
-      simp only at hs ho; subst hs
-      cases inplace <;> cases o1 <;> cases o2 <;> simp [Out.erase] at ho ⊢
+  by_cases hg : sep = "" ∧ rootKeys (.node kids) ≠ []
+  · rw [if_pos hg, if_pos hg]; exact ⟨rfl, rfl⟩
+  · rw [if_neg hg, if_neg hg]
+    cases h1 : unflattenLoop sep (rootKeys (.node kids)) (.node kids) with
+    | mk t1 o1 =>
+      cases h2 : specUnflattenLoop sep (rootKeys (.node kids)) (.node kids) with
+      | mk t2 o2 =>
+        rw [h1, h2] at h
+        obtain ⟨hs, ho⟩ := h
+        simp only at hs ho; subst hs
+        cases inplace <;> cases o1 <;> cases o2 <;> simp [Out.erase] at ho ⊢
 
 /-- `exclude(*keys)` (repaired): popping the string keys, grouping the nested keys by their first component and
 recursing into the nested tensordicts equals deleting every listed entry if present — whatever the order of the keys,
@@ -417,6 +431,9 @@ theorem dstep_good (kids : Kids) (hw : WF (.node kids)) (op : Op) (hs : InScope 
   | unflatten sep inplace =>
     obtain ⟨kids', hk', hw'⟩ := specUnflattenLoop_good sep (rootKeys (.node kids)) kids hw
     simp only [dstep, specUnflatten]
+    by_cases hg : sep = "" ∧ rootKeys (.node kids) ≠ []
+    · rw [if_pos hg]; exact ⟨kids, rfl, hw⟩
+    rw [if_neg hg]
     cases h : specUnflattenLoop sep (rootKeys (.node kids)) (.node kids) with
     | mk t' o =>
       rw [h] at hk'; simp only at hk'; subst hk'
@@ -436,6 +453,136 @@ theorem run_refines : ∀ (ops : List Op) (kids : Kids), WF (.node kids) → Sco
     have hs2 := hs.2
     rw [hk] at hs2
     exact run_refines ops kids' hw' hs2
+
+/-! ## §4c lazy stacks with homogeneous keys -/
+
+/-- the lazy `pop` answers the default for a key that runs through a tensor below an existing nested tensordict (the
+generic one raises): with a default such keys are outside the refinement -/
+def MemberScope (t : Entry) : Op → Prop
+  | .pop p d => d = false ∨ throughLeaf p t = false
+  | _ => True
+
+theorem popLazy_refines (p : Path) (d : Bool) (kids : Kids) (hnt : throughNt p (.node kids) = false ∨ d = false)
+    (hl : d = false ∨ throughLeaf p (.node kids) = false) :
+    (popLazy p d (.node kids)).1 = (specPop p d (.node kids)).1 ∧
+    (popLazy p d (.node kids)).2.erase = (specPop p d (.node kids)).2.erase := by
+  have hpop := pop_refines p d (.node kids) hnt
+  have habs : ∀ (hlk : lookup p (.node kids) = none) (hp : p ≠ []),
+      ((if d = true then ((Entry.node kids, Out.val none) : Entry × Out) else (.node kids, .err .key)).1 = (specPop p d (.node kids)).1) ∧
+      ((if d = true then ((Entry.node kids, Out.val none) : Entry × Out) else (.node kids, .err .key)).2.erase = (specPop p d (.node kids)).2.erase) := by
+    intro hlk hp
+    simp only [specPop, hp, if_false, hlk]
+    rcases hl with hd | htl
+    · subst hd; simp only [Bool.false_eq_true, if_false]
+      split <;> simp [Out.erase]
+    · rw [htl]; simp only [Bool.false_eq_true, if_false]
+      cases d <;> simp [Out.erase]
+  match p with
+  | [] => simp [popLazy, specPop, Out.erase]
+  | [k] =>
+    simp only [popLazy]
+    cases hd : dget k kids with
+    | some v => simpa [hd] using hpop
+    | none =>
+      simp only [hd, Option.isSome_none, Bool.false_eq_true, if_false]
+      exact habs (by rw [lookup_cons_node, hd]; rfl) (by simp)
+  | k :: k2 :: r =>
+    simp only [popLazy]
+    cases hd : dget k kids with
+    | none =>
+      simp only []
+      exact habs (by rw [lookup_cons_node, hd]; rfl) (by simp)
+    | some c =>
+      cases c with
+      | leaf nt x =>
+        simp only []
+        have hlk : lookup (k :: k2 :: r) (.node kids) = none := by rw [lookup_cons_node, hd]; simp [lookup]
+        have htl : throughLeaf (k :: k2 :: r) (.node kids) = true := by simp [throughLeaf, hd]
+        simp [specPop, hlk, htl, Out.erase]
+      | node sub =>
+        simp only []
+        rw [contains_refines (k2 :: r) sub (by simp)]
+        have hlook : lookup (k :: k2 :: r) (.node kids) = lookup (k2 :: r) (.node sub) := by
+          rw [lookup_cons_node, hd]; rfl
+        cases hh : has (k2 :: r) (.node sub) with
+        | true => simpa using hpop
+        | false =>
+          simp only []
+          refine habs ?_ (by simp)
+          rw [hlook]
+          simp only [has, ne_eq, reduceCtorEq, not_false_eq_true, decide_true, Bool.true_and] at hh
+          cases hx : lookup (k2 :: r) (.node sub) with
+          | none => rfl
+          | some y => rw [hx] at hh; simp at hh
+
+/-- a member of a lazy stack refines the same replay (with `unflatten_keys` visiting the root keys in sorted order) -/
+theorem member_refines (kids : Kids) (hw : WF (.node kids)) (op : Op) (hs : InScope (.node kids) op)
+    (hm : MemberScope (.node kids) op) :
+    (stepMember (.node kids) op).1 = (dstepMember (.node kids) op).1 ∧
+    (stepMember (.node kids) op).2.erase = (dstepMember (.node kids) op).2.erase := by
+  cases op with
+  | unflatten sep inplace =>
+    have h := unflattenLoop_refines sep (sortBy id (rootKeys (.node kids))) kids hw
+    simp only [stepMember, dstepMember, unflattenTL, specUnflattenL]
+    by_cases hg : sep = "" ∧ rootKeys (.node kids) ≠ []
+    · rw [if_pos hg, if_pos hg]; exact ⟨rfl, rfl⟩
+    · rw [if_neg hg, if_neg hg]
+      cases h1 : unflattenLoop sep (sortBy id (rootKeys (.node kids))) (.node kids) with
+      | mk t1 o1 =>
+        cases h2 : specUnflattenLoop sep (sortBy id (rootKeys (.node kids))) (.node kids) with
+        | mk t2 o2 =>
+          rw [h1, h2] at h
+          obtain ⟨hs1, ho⟩ := h
+          simp only at hs1 ho; subst hs1
+          cases inplace <;> cases o1 <;> cases o2 <;> simp [Out.erase] at ho ⊢
+  | set p v => exact refines kids hw (.set p v) hs
+  | del p => exact refines kids hw (.del p) hs
+  | pop p d => exact popLazy_refines p d kids hs hm
+  | rename o n sf => exact refines kids hw (.rename o n sf) hs
+  | setdefault p tup v => exact refines kids hw (.setdefault p tup v) hs
+  | update items => exact refines kids hw (.update items) hs
+  | select keys strict inplace => exact refines kids hw (.select keys strict inplace) hs
+  | exclude keys inplace => exact refines kids hw (.exclude keys inplace) hs
+  | flatten sep inplace => exact refines kids hw (.flatten sep inplace) hs
+  | split sets inplace strict => exact refines kids hw (.split sets inplace strict) hs
+  | clear => exact refines kids hw .clear hs
+  | empty => exact refines kids hw .empty hs
+
+/-- LazyStackedTensorDict with homogeneous keys: when all members hold the same nested dict, every mapping operation of
+the stack leaves them all holding the same nested dict again — the one the plain-dict replay produces — and answers as the
+replay does; so the stack, seen through any of its members, is the same nested string-keyed mapping as a TensorDict. -/
+theorem lazy_stack_refines (kids : Kids) (hw : WF (.node kids)) (op : Op) (hs : InScope (.node kids) op)
+    (hmem : MemberScope (.node kids) op) (ms : List Entry) (hne : ms ≠ []) (hhom : ∀ m ∈ ms, m = .node kids) :
+    (∀ m' ∈ (lazyStep ms op).1, m' = (dstepMember (.node kids) op).1) ∧
+    (lazyStep ms op).2.erase = (dstepMember (.node kids) op).2.erase := by
+  have href := member_refines kids hw op hs hmem
+  constructor
+  · intro m' hm'
+    simp only [lazyStep, List.mem_map] at hm'
+    obtain ⟨m, hm, rfl⟩ := hm'
+    rw [hhom m hm]; exact href.1
+  · cases ms with
+    | nil => exact absurd rfl hne
+    | cons m r =>
+      simp only [lazyStep]
+      rw [hhom m (by simp)]; exact href.2
+
+/-- a tensordict held under a field name (a tensorclass keeps its fields in a tensordict `_tensordict`; the harness reaches
+the held tensordict with keys prefixed by the field): reading, writing and deleting below the field are reading, writing
+and deleting in the held dict — for every key, every value and every held dict. (The composite operations issued through
+the tensorclass are compared with the model of the held tensordict by the check, stream `tensorclass.state`.) -/
+theorem held_dict_laws (f : String) (sub : Kids) (p : Path) (hp : p ≠ []) (v : Entry) :
+    lookup (f :: p) (.node [(f, .node sub)]) = lookup p (.node sub) ∧
+    insert (f :: p) v (.node [(f, .node sub)]) = (insert p v (.node sub)).map (fun c => .node [(f, c)]) ∧
+    remove (f :: p) (.node [(f, .node sub)]) = (remove p (.node sub)).map (fun c => .node [(f, c)]) := by
+  cases p with
+  | nil => exact absurd rfl hp
+  | cons k r =>
+    refine ⟨by simp [lookup_cons_node, dget], ?_, ?_⟩
+    · simp only [C04.insert, dget, if_true]
+      cases insert (k :: r) v (.node sub) <;> simp [dset]
+    · simp only [remove, dget, if_true]
+      cases remove (k :: r) (.node sub) <;> simp [dset]
 
 example : ScopeAll (.node []) [.set ["a", "b"] (.leaf false 1), .rename ["a", "b"] ["a", "b", "c"] false, .pop ["a"] true, .clear] := by
   simp [ScopeAll, InScope, dstep, specSet, specRename, C04.insert, dget, dset, lookup, has, remove, ddel, throughNt]
@@ -593,7 +740,7 @@ their place, the others are re-inserted behind them). -/
 theorem flatten_unflatten_roundtrip (sep : Char) (kids : Kids) (hw : WF (.node kids))
     (hs : ∀ p e, bound p e kids → e.isLeafFor true = true → ∀ c ∈ p, sep ∉ c.toList) :
     ∃ fk bk, flattenOut (String.singleton sep) (.node kids) = .ok (.node fk) ∧
-      unflattenT sep true (.node fk) = (.node bk, .ok) ∧ WF (.node bk) ∧
+      unflattenT (String.singleton sep) true (.node fk) = (.node bk, .ok) ∧ WF (.node bk) ∧
       (∀ p e, e.isLeafFor true = true → (bound p e bk ↔ bound p e kids)) ∧
       (∀ q e, bound q e bk → ∃ p l, isPrefix q p = true ∧ bound p l kids ∧ l.isLeafFor true = true) := by
   have hg := glob_leavesOf sep kids hw hs
@@ -610,13 +757,16 @@ theorem flatten_unflatten_roundtrip (sep : Char) (kids : Kids) (hw : WF (.node k
   have hrk : rootKeys (.node (flatKids (String.singleton sep) (.node kids)))
       = (leavesOf (.node kids)).map fun pv => joinWith (String.singleton sep) pv.1 := by
     simp [rootKeys, flatKids]
-  have hspec : specUnflatten sep true (.node (flatKids (String.singleton sep) (.node kids))) = (.node bk, .ok) := by
-    simp only [specUnflatten, hrk, hloop]; rfl
-  have href := unflatten_refines sep true _ hwf
+  have hspec : specUnflatten (String.singleton sep) true (.node (flatKids (String.singleton sep) (.node kids))) = (.node bk, .ok) := by
+    have hne : ¬ (String.singleton sep = "" ∧ rootKeys (.node (flatKids (String.singleton sep) (.node kids))) ≠ []) := by
+      intro h; have := congrArg String.length h.1; simp at this
+    simp only [specUnflatten]
+    rw [if_neg hne, hrk, hloop]; rfl
+  have href := unflatten_refines (String.singleton sep) true _ hwf
   rw [hspec] at href
-  have hcode : unflattenT sep true (.node (flatKids (String.singleton sep) (.node kids))) = (.node bk, .ok) := by
+  have hcode : unflattenT (String.singleton sep) true (.node (flatKids (String.singleton sep) (.node kids))) = (.node bk, .ok) := by
     obtain ⟨h1, h2⟩ := href
-    cases hc : unflattenT sep true (.node (flatKids (String.singleton sep) (.node kids))) with
+    cases hc : unflattenT (String.singleton sep) true (.node (flatKids (String.singleton sep) (.node kids))) with
     | mk t o =>
       rw [hc] at h1 h2
       simp only at h1 h2
